@@ -321,6 +321,9 @@ def special_stream():
         "pd.Series(['2020', '2021'])", "pd.Series(['01', '02'])", "pd.Series(['1_0'])", "pd.Series(['nan', '1.5'])", "pd.Series(['inf'])",
         "pd.Series(['True', 'yes'])", "pd.Series(['nan', 'NaN'])", "pd.Series(['nan'])", "pd.Series(['NaN', None])", "pd.Series(['-nan', 'nan', 'nan'])",
         "pd.Series(['NaT', 'NaT'])", "pd.Series(['inf', '-inf'])", "pd.Series(['nan', 'nan'], dtype=object)", "pd.Series(['nan', '1'])", "pd.Series(['NaT', '2020-01-01'])", "pd.Series([''])", "pd.Series(['', 'a'])", "pd.Series([' '])", "pd.Series(['\\x00'])",
+        "pd.Series(['//cdn.example.com/lib.js', '//fileserver/share/q1.csv'])", "pd.Series(['//host/share'])",
+        "pd.Series(['82.016097535139332871', '3.25e-30'])", "pd.Series(['0.1234567890123456789', '1.0', '2.2250738585072014e-308'])", "pd.Series(['1e23', '8.5e-5', '123456789012345678901234567890'])",
+        "pd.Series(['\\ud83d', 'POINT (1 2)'], dtype=pd.StringDtype('python'))", "pd.Series(['\\ud83d'], dtype=pd.StringDtype('python'))", "pd.Series(['\\ud83d', 'a'], dtype=object)",
         "pd.Series(['0000-01-01'])", "pd.Series(['-2020-01-01', '2020-01-01'])", "pd.Series([1.0, False, None], dtype=object)", "pd.Series([True, 0, None], dtype=object)",
         "pd.Series([np.bool_(True), np.float32(0), None], dtype=object)", "pd.Series(pd.arrays.SparseArray([pd.Timestamp('2020-01-01'), pd.NaT]))",
         "pd.Series([datetime.date(2020, 1, 1), None], dtype='date32[pyarrow]')", "pd.Series([pd.Timestamp('2020-01-01'), None], dtype='timestamp[us][pyarrow]')",
@@ -347,6 +350,7 @@ FRAME_COLS = {
     "ynstr": "['y', 'n', 'y']", "int": "[1, 2, 3]", "float": "[1.5, 2.5, 3.5]", "intfloat": "[1.0, 2.0, 3.0]", "bool": "[True, False, True]",
     "int01": "[0, 1, 1]", "ts": "[pd.Timestamp('2020-01-01'), pd.Timestamp('2020-01-02'), pd.Timestamp('2020-01-03 05:00')]",
     "urlstr": "['http://a.b/c', 'https://x.y/', 'http://a.b/d']", "pathstr": "['/a/b', '/c/d.txt', '/e']", "nullish": "['1', None, '3']",
+    "uint": "[1, 2, 3], dtype='uint8'", "nullableint": "[1, None, 3], dtype='Int64'",
 }
 
 
@@ -361,6 +365,10 @@ def frame_stream():
                 continue
             r = "pd.DataFrame({'p': pd.Series(%s), 'q': pd.Series(%s)})" % (FRAME_COLS[a], FRAME_COLS[b])
             out.append({"recipe": r, "family": "frame", "pool": a + "|" + b, "dtype": "frame", "nulls": "none", "null": None, "len": 3, "index": "None"})
+            if (len(a) + len(b)) % 2 == 0:
+                # the same frame under a row index that is not 0..n-1 (labels, or integers in another order)
+                idx = "['r0', 'r1', 'r2']" if len(a) % 2 else "[10, 30, 20]"
+                out.append({"recipe": r + ".set_axis(%s)" % idx, "family": "frame", "pool": a + "|" + b + "|idx", "dtype": "frame", "nulls": "none", "null": None, "len": 3, "index": "'str'"})
     for a, b, c in (("years", "days", "prices"), ("days", "prices", "years"), ("intstr", "years", "boolstr"), ("text", "int", "float")):
         r = "pd.DataFrame({'p': pd.Series(%s), 'q': pd.Series(%s), 'r': pd.Series(%s)})" % (FRAME_COLS[a], FRAME_COLS[b], FRAME_COLS[c])
         out.append({"recipe": r, "family": "frame", "pool": "|".join((a, b, c)), "dtype": "frame", "nulls": "none", "null": None, "len": 3, "index": "None"})
